@@ -32,10 +32,12 @@ func MakeFromRequest(r *http.Request) CacheKey {
 		scheme = "https"
 	}
 	normHost := strings.ToLower(r.Host)
-	normPath := path.Clean(r.URL.Path)
+	// The path as the client wrote it, which is also what the origin is asked for: an escaped reserved
+	// character is not the character itself ("/a%2Fb" and "/a/b" are different resources).
+	p := r.URL.EscapedPath()
+	normPath := path.Clean(p)
 	// path.Clean drops a trailing slash, but "/dir/" and "/dir" are different resources.
 	// A path ending in a dot-segment denotes a directory as well (RFC 3986 5.2.4).
-	p := r.URL.Path
 	if normPath != "/" && (strings.HasSuffix(p, "/") || strings.HasSuffix(p, "/.") || strings.HasSuffix(p, "/..")) {
 		normPath += "/"
 	}
